@@ -129,7 +129,7 @@ Section Prefix.
   Proof.
     intros [Q1 Q2 Q3 Q4 Q5 Q6] Ht. constructor; try assumption. cbn. apply ni_map_insert; assumption.
   Qed.
-  Lemma Qs_add_local s name : Qs s -> Qs (set_local_helpers s (map_insert (s_local_helpers s) name (HLocal name))).
+  Lemma Qs_add_local s name tag : Qs s -> Qs (set_local_helpers s (map_insert (s_local_helpers s) name (HLocal tag))).
   Proof.
     intros [Q1 Q2 Q3 Q4 Q5 Q6]. constructor; try assumption. intros n. unfold find_local_helper in *. cbn.
     destruct (str_eqb n name) eqn:E.
